@@ -104,12 +104,15 @@ def value_for(attr: dict, ex_id: int, k: int):
     if dt.kind == "f":
         arr = (base % 2039).astype(dt) / dt.type(4)  # exactly representable
     elif dt.kind == "u":
-        arr = (base % (int(np.iinfo(dt).max) + 1)).astype(dt)
+        if dt.itemsize < 8:
+            arr = (base % (int(np.iinfo(dt).max) + 1)).astype(dt)
+        else:
+            arr = base.astype(dt) + dt.type(2**63 + 5)  # beyond int64
     else:
         info = np.iinfo(dt)
         span = int(info.max) - int(info.min) + 1
         arr = ((base % span) + int(info.min)).astype(dt) if span < 2**63 else \
-            base.astype(dt)
+            (base - 2**40).astype(dt)
     return arr.reshape(shape)
 
 
